@@ -34,7 +34,7 @@ def run(ctx):
 
     # (b) ledger monitor on real stepping loops
     exe = ctx.compile_harness([os.path.join(HERE, "harness", "loop.cc")], "loop", libs=M.LIBS, test_includes=True)
-    specs = M.gen_specs(ctx.rng, ctx.tier) + M.gen_specs_extra(ctx.rng, ctx.tier)
+    specs = M.gen_specs(ctx.rng, ctx.tier) + M.gen_specs_extra(ctx.rng, ctx.tier) + M.gen_specs_sweep(ctx.rng, ctx.tier) + M.gen_specs_msc(ctx.rng, ctx.tier)
     rc, out = M.execute(ctx, exe, specs)
     runs = M.parse_runs(out, specs)
     if rc != 0 or len(runs) != len(specs) or any(r.end is None for r in runs):
@@ -46,6 +46,9 @@ def run(ctx):
         ctx.count("problem:%s/cut%d" % (s["problem"], s["cutmode"]))
         ctx.count("track_order:" + M.TRACK_ORDERS[s.get("track_order", 0)])
         ctx.count("slots:%d" % s["slots"])
+        for _o in ("disable_integral_xs", "linear_loss_limit", "lowest", "min_range", "msc_emin", "msc_xs"):
+            if s.get(_o):
+                ctx.count("option:" + _o)
         ctx.count("capacity:%s" % ("ample" if s["capacity"] >= 4096 else "tight"))
         if run_.exc:
             tot["exc"] += 1
